@@ -70,6 +70,7 @@ type Fixture struct {
 	Keys      map[string]*storetypes.KVStoreKey
 	MS        storetypes.CommitMultiStore
 	Authority string
+	LastRaw   string // raw record of the last delivery (result, error text, response bytes, ordered events) for determinism checks
 }
 
 type communityPool struct{ bank bankkeeper.BaseKeeper }
@@ -206,6 +207,22 @@ func (r Result) ErrString() string {
 // the MsgServiceRouter, execution on a branch of the store with a fresh event manager and panic
 // recovery; the branch is written back only on success.
 func Deliver(f *Fixture, ctx sdk.Context, msg sdk.Msg) (res Result) {
+	defer func() {
+		raw := fmt.Sprintf("ok=%v|err=%s|", res.OK, res.ErrString())
+		if res.Resp != nil {
+			if bz, err := proto.Marshal(res.Resp); err == nil {
+				raw += fmt.Sprintf("resp=%x|", bz)
+			}
+		}
+		for _, ev := range res.Events {
+			raw += ev.Type + "{"
+			for _, a := range ev.Attributes {
+				raw += a.Key + "=" + a.Value + ";"
+			}
+			raw += "}"
+		}
+		f.LastRaw = raw
+	}()
 	bz, err := f.Cdc.MarshalInterface(msg)
 	if err != nil {
 		return Result{Err: fmt.Errorf("marshal: %w", err)}
